@@ -1,4 +1,5 @@
 import PMV.Lemmas.FaultsSafe
+import PMV.Lemmas.FaultsReject2
 import PMV.Gen.Events
 /-
   C19 — rejected operations fail cleanly: documented exception class, target left untouched.
@@ -32,18 +33,17 @@ example : validate ⟨.scalar, .int, [3], [], [], none, false, 0, []⟩
 
 /-! ### 2. An accepted call cannot fail after its first write -/
 
-/-- the one corner not covered: `insert_derivs` on a READ-ONLY object without override — there the precondition of
-    the k-th insert depends on the earlier inserts (a key must not be inserted twice), i.e. on the keys of the
-    Python dict being distinct, which the list model does not express -/
-def Call.covered (s : Obj) : Call → Prop
-  | .insertDerivs _ ov => s.ro = false ∨ ov = true
+/-- typing hypothesis: the `derivs` argument of insert_derivs is a Python dict, so its keys are distinct
+    (the model passes it as an association list) -/
+def Call.dictKeysDistinct : Call → Prop
+  | .insertDerivs ds _ => (ds.map (·.1)).Nodup
   | _ => True
 
--- FULL: ∀ s c plan, validate s c = .ok plan → (execAll s plan).2 = none     (with distinct keys in insertDerivs)
-/-- **accept_no_late_failure**: if validation accepts, the precondition of EVERY write primitive holds in the state
-    in which it is executed (each primitive re-checks it and would raise otherwise), so the plan runs to its end:
-    no failure can occur after the first write.  All mutators, all targets and operands. -/
-theorem accept_no_late_failure_partial (s : Obj) (c : Call) (plan : List Prim) (hc : c.covered s)
+/-- **accept_no_late_failure** (full): if validation accepts, the precondition of EVERY write primitive holds in the
+    state in which it is executed (each primitive re-checks it and would raise otherwise), so the plan runs to its
+    end: no failure can occur after the first write.  All mutators, all targets and operands — including
+    insert_derivs on a read-only object without override, where the k-th insert depends on the earlier ones. -/
+theorem accept_no_late_failure (s : Obj) (c : Call) (plan : List Prim) (hc : c.dictKeysDistinct)
     (h : validate s c = .ok plan) : (execAll s plan).2 = none := by
   cases c <;> simp only [validate] at h
   · exact safe_vAdd _ _ _ h
@@ -69,11 +69,10 @@ example :
 
 /-! ### 3. A rejected call leaves the target exactly as it was -/
 
--- FULL: the same without `hc`
-/-- **reject_clean**: whenever a mutator call ends with an exception, the state is the one it started from (no write
-    was executed: every write increments a version counter) and the exception is a TypeError, ValueError or
-    IndexError. -/
-theorem reject_clean_partial (s s' : Obj) (c : Call) (e : Exc) (hc : c.covered s)
+/-- **reject_clean** (full): whenever a mutator call ends with an exception, the state is the one it started from
+    (no write was executed: every write increments a version counter) and the exception is a TypeError, ValueError
+    or IndexError. -/
+theorem reject_clean (s s' : Obj) (c : Call) (e : Exc) (hc : c.dictKeysDistinct)
     (h : run s c = (s', some e)) : s' = s ∧ e.allowed = true := by
   unfold run at h
   split at h
@@ -81,9 +80,15 @@ theorem reject_clean_partial (s s' : Obj) (c : Call) (e : Exc) (hc : c.covered s
     cases h
     exact ⟨rfl, validate_allowed s c _ he⟩
   · next plan hp =>
-    have := accept_no_late_failure_partial s c plan hc hp
+    have := accept_no_late_failure s c plan hc hp
     rw [h] at this
     cases this
+
+/-- the read-only corner, concretely: three new derivatives into a read-only Scalar without override -/
+example :
+    let s : Obj := ⟨.scalar, .float, [3], [], [], none, true, 0, [⟨"t", [], true, 0⟩]⟩
+    let d : Arg := .q ⟨.scalar, .float, [3], [], [], none, false, 0, []⟩
+    (run s (.insertDerivs [("u", d), ("v", d), ("w", d)] false)).2 = none := by decide
 
 /-- the statement is not vacuous: executing a write changes the state (version counter), so `s' = s` really
     says that nothing was written -/
@@ -119,224 +124,70 @@ inductive Fault where
   | shape | units | numer | denom | kind | type | deriv | readOnly | index
   deriving DecidableEq, Repr
 
-def Rejected (v : V) : Prop := ∃ e, v = .error e
 
-/-- a read-only target: every mutator except insert_deriv(s) (documented: new derivatives may be inserted into a
-    read-only object) and the calls that explicitly override -/
+/-- a read-only target: every mutator; insert_deriv(s) only when it would REPLACE a derivative without override
+    (documented: new derivatives may be inserted into a read-only object); not the calls that explicitly override -/
 def roFault (s : Obj) : Call → Prop
   | .iadd _ | .isub _ | .imul _ | .itruediv _ | .ifloordiv _ | .imod _ | .ilogic _ | .setitem _ _
   | .deleteDeriv _ false | .deleteDerivs _ false | .setUnits _ false => s.ro = true
+  | .insertDeriv k _ false => s.ro = true ∧ s.hasKey k = true
+  | .insertDerivs ds false => s.ro = true ∧ ∃ p ∈ ds, s.hasKey p.1 = true
   | _ => False
-/-- a Qube operand that does not broadcast INTO the target -/
+/-- a Qube operand that does not broadcast INTO the target (for item assignment: into the selection, NumPy's rule) -/
 def shapeFault (s : Obj) : Call → Prop
-  | .iadd (.q a) | .isub (.q a) | .ifloordiv (.q a) | .imod (.q a) | .ilogic (.q a) | .insertDeriv _ (.q a) _ =>
-      into a.shape s.shape = false
+  | .iadd (.q a) | .isub (.q a) | .imul (.q a) | .itruediv (.q a) | .ifloordiv (.q a) | .imod (.q a)
+  | .ilogic (.q a) | .insertDeriv _ (.q a) _ => into a.shape s.shape = false
+  | .setitem (.sel sel) (.q a) => assignable a.shape sel = false
+  | .insertDerivs ds _ => ∃ p ∈ ds, ∃ a, p.2 = .q a ∧ into a.shape s.shape = false
   | _ => False
 def unitsFault (s : Obj) : Call → Prop
   | .iadd (.q a) | .isub (.q a) => canMatch s.units a.units = false
   | .setUnits (.unit d) _ => canMatch (some d) s.units = false
   | _ => False
 def numerFault (s : Obj) : Call → Prop
-  | .iadd (.q a) | .isub (.q a) => (s.numer == a.numer) = false
+  | .iadd (.q a) | .isub (.q a) | .setitem (.sel _) (.q a) => (s.numer == a.numer) = false
   | .insertDeriv _ (.q a) _ => (a.numer == s.numer) = false
+  | .insertDerivs ds _ => ∃ p ∈ ds, ∃ a, p.2 = .q a ∧ (a.numer == s.numer) = false
   | _ => False
 def denomFault (s : Obj) : Call → Prop
-  | .iadd (.q a) | .isub (.q a) => (s.denom == a.denom) = false
+  | .iadd (.q a) | .isub (.q a) | .setitem (.sel _) (.q a) => (s.denom == a.denom) = false
   | _ => False
-/-- a float (or Boolean) operand for an integer target; the Python-int corner (number operand, shapeless target)
-    is carried out by Python and is not a fault of the property -/
+/-- a float (or Boolean) operand for an integer target: a Qube operand, or a Python float when the target's values
+    are an array (NumPy's cast test).  The remaining corner — a Python float for a shapeless integer object whose
+    value is a Python int — is carried out by Python (`Scalar(1) += 1.5` gives Scalar(2.5)) and is not a fault of the
+    property: "cannot be carried out" does not apply. -/
 def kindFault (s : Obj) : Call → Prop
   | .iadd (.q a) | .isub (.q a) => s.isInt = true ∧ a.isInt = false
+  | .imul (.q a) => a.rank = 0 ∧ s.isInt = true ∧ a.isInt = false
+  | .iadd (.num .float _) | .isub (.num .float _) | .imul (.num .float _) | .ifloordiv (.num .float _)
+  | .imod (.num .float _) => s.kind = .int ∧ s.pyScalar = false
   | .itruediv _ => s.isFloat = false
   | _ => False
 /-- an operand of a type polymath cannot convert -/
 def typeFault : Call → Prop
   | .iadd .bad | .isub .bad | .imul .bad | .itruediv .bad | .ifloordiv .bad | .imod .bad
-  | .insertDeriv _ .bad _ | .setUnits .bad _ => True
+  | .setitem (.sel _) .bad | .insertDeriv _ .bad _ | .setUnits .bad _ => True
+  | .insertDerivs ds _ => ∃ p ∈ ds, p.2 = .bad
   | _ => False
-/-- a derivative present on both sides with different denominators -/
+/-- derivative structure: a derivative present on both sides with different denominators (+=, -=, item assignment),
+    derivative terms that cannot be summed or two denominators in one product (*=, /=, `mulClash`), a read-only
+    derivative that item assignment would have to write into (`setitemClash`) -/
 def derivFault (s : Obj) : Call → Prop
   | .iadd (.q a) | .isub (.q a) => ∃ d ∈ s.derivs, ∃ e, a.find d.key = some e ∧ (e.denom == d.denom) = false
+  | .imul (.q a) | .itruediv (.q a) => a.rank = 0 ∧ ∃ e ∈ a.derivs, mulClash s e
+  | .setitem (.sel _) (.q a) => s.cls.derivsOk = true ∧ ∃ d ∈ s.derivs, setitemClash a d
   | _ => False
 def indexFault : Call → Prop
   | .setitem (.fails _) _ => True
   | _ => False
 
 /-- `HasFault s f c`: call `c` on target `s` exhibits fault class `f` (whatever else is right or wrong with it).
-    Only combinations for which the property demands a rejection are listed
-    (see DESIGN.d/C19.md for the combinations left to the correspondence run). -/
+    Only combinations for which the property demands a rejection are listed (DESIGN.d/C19.md §2 and §6 name the
+    deliberate omissions: kind faults with bare numbers, units in item assignment, operands of &=, |=, ^=). -/
 def HasFault (s : Obj) : Fault → Call → Prop
   | .readOnly => roFault s | .shape => shapeFault s | .units => unitsFault s | .numer => numerFault s
   | .denom => denomFault s | .kind => kindFault s | .type => typeFault | .deriv => derivFault s
   | .index => indexFault
-
-theorem rej_error (e : Exc) : Rejected (.error e) := ⟨e, rfl⟩
-theorem rej_throw (e : Exc) : Rejected (throw e) := ⟨e, rfl⟩
-theorem rej_raise (e : Exc) : Rejected (raise e) := ⟨e, rfl⟩
-theorem rej_bind {α} {x : Except Exc α} {f : α → V} (h : ∀ a, x = .ok a → Rejected (f a)) : Rejected (x >>= f) := by
-  cases x with
-  | error e => exact ⟨e, rfl⟩
-  | ok a => exact h a rfl
-theorem rej_guard {c : Bool} {e : Exc} {f : Unit → V} (h : c = false) : Rejected (guard' c e >>= f) := by
-  subst h; exact ⟨e, rfl⟩
-
-theorem filterMapE_error {α β} (f : α → Except Exc (Option β)) (l : List α) (x : α) (e : Exc)
-    (hx : x ∈ l) (hf : f x = .error e) : ∃ e', filterMapE f l = .error e' := by
-  induction l with
-  | nil => cases hx
-  | cons y ys ih =>
-    simp only [filterMapE]
-    rcases List.mem_cons.1 hx with rfl | hx'
-    · rw [hf]; exact ⟨e, rfl⟩
-    · obtain ⟨e', he'⟩ := ih hx'
-      split
-      · exact ⟨_, rfl⟩
-      · exact ⟨e', he'⟩
-      · rw [he']; exact ⟨e', rfl⟩
-
-/-- walking down a chain: a step that already failed rejects; otherwise continue with what it returned -/
-macro "rej_walk" : tactic => `(tactic| repeat (first
-  | exact rej_guard (by assumption)
-  | exact rej_error _ | exact rej_throw _ | exact rej_raise _
-  | refine rej_bind (fun _ _ => ?_)))
-
-theorem rejected_vAddQ_of (s a : Obj)
-    (h : canMatch s.units a.units = false ∨ (s.numer == a.numer) = false ∨ (s.denom == a.denom) = false
-      ∨ into a.shape s.shape = false ∨ (s.isInt = true ∧ a.isInt = false)
-      ∨ (∃ d ∈ s.derivs, ∃ e, a.find d.key = some e ∧ (e.denom == d.denom) = false)) :
-    Rejected (vAddQ s a) := by
-  unfold vAddQ
-  rcases h with h | h | h | h | ⟨h1, h2⟩ | ⟨d, hd, e, he, hne⟩
-  · rej_walk
-  · rej_walk
-  · rej_walk
-  · rej_walk
-  · have hk : (!(s.isInt && !a.isInt)) = false := by simp [h1, h2]
-    rej_walk
-  · refine rej_bind (fun _ _ => ?_)
-    refine rej_bind (fun _ _ => ?_)
-    refine rej_bind (fun _ _ => ?_)
-    refine rej_bind (fun _ _ => ?_)
-    refine rej_bind (fun _ _ => ?_)
-    unfold addDerivs
-    obtain ⟨e', he'⟩ := filterMapE_error (addStep s a) s.derivs d .valueError hd (by simp [addStep, he, hne])
-    rw [he']
-    exact ⟨e', rfl⟩
-
-theorem rejected_vAdd_q (s a : Obj) (h : Rejected (vAddQ s a)) : Rejected (vAdd s (.q a)) := by
-  unfold vAdd
-  refine rej_bind (fun _ _ => ?_)
-  refine rej_bind (fun _ _ => ?_)
-  simp only [fastPath, toQubeAdd]
-  exact rej_bind (fun a' ha' => by cases ha'; exact h)
-
-theorem rej_ro_vAdd (s : Obj) (a : Arg) (h : s.ro = true) : Rejected (vAdd s a) := by
-  have h' : (!s.ro) = false := by simp [h]
-  unfold vAdd requireWritable; rej_walk
-theorem rej_ro_vMul (s : Obj) (a : Arg) (h : s.ro = true) : Rejected (vMul s a) := by
-  have h' : (!s.ro) = false := by simp [h]
-  unfold vMul requireWritable; rej_walk
-theorem rej_ro_vDiv (s : Obj) (a : Arg) (h : s.ro = true) : Rejected (vDiv s a) := by
-  have h' : (!s.ro) = false := by simp [h]
-  unfold vDiv requireWritable; rej_walk
-theorem rej_ro_vFloorMod (fl : Bool) (s : Obj) (a : Arg) (h : s.ro = true) : Rejected (vFloorMod fl s a) := by
-  have h' : (!s.ro) = false := by simp [h]
-  unfold vFloorMod requireWritable; rej_walk
-theorem rej_ro_vLogic (s : Obj) (a : Arg) (h : s.ro = true) : Rejected (vLogic s a) := by
-  have h' : (!s.ro) = false := by simp [h]
-  unfold vLogic requireWritable; rej_walk
-theorem rej_ro_vSetItem (s : Obj) (ix : Idx) (a : Arg) (h : s.ro = true) : Rejected (vSetItem s ix a) := by
-  have h' : (!s.ro) = false := by simp [h]
-  unfold vSetItem requireWritable; rej_walk
-theorem rej_ro_vDeleteDeriv (s : Obj) (k : String) (h : s.ro = true) : Rejected (vDeleteDeriv s k false) := by
-  have h' : (false || !s.ro) = false := by simp [h]
-  unfold vDeleteDeriv; rej_walk
-theorem rej_ro_vDeleteDerivs (s : Obj) (p : List String) (h : s.ro = true) : Rejected (vDeleteDerivs s p false) := by
-  have h' : (false || !s.ro) = false := by simp [h]
-  unfold vDeleteDerivs; rej_walk
-theorem rej_ro_vSetUnits (s : Obj) (u : UArg) (h : s.ro = true) : Rejected (vSetUnits s u false) := by
-  have h' : (false || !s.ro) = false := by simp [h]
-  unfold vSetUnits; rej_walk
-
-theorem rej_shape_vFloorMod (fl : Bool) (s a : Obj) (h : into a.shape s.shape = false) :
-    Rejected (vFloorMod fl s (.q a)) := by
-  unfold vFloorMod
-  refine rej_bind (fun _ _ => ?_)
-  refine rej_bind (fun _ _ => ?_)
-  refine rej_bind (fun _ _ => ?_)
-  simp only [toScalarArg, asScalar]
-  refine rej_bind (fun a' ha' => ?_)
-  cases ha'
-  split
-  · rej_walk
-  · exact rej_raise _
-theorem rej_shape_vLogic (s a : Obj) (h : into a.shape s.shape = false) : Rejected (vLogic s (.q a)) := by
-  unfold vLogic; rej_walk
-theorem rej_shape_vInsertDeriv (s a : Obj) (k : String) (o : Bool) (h : into a.shape s.shape = false) :
-    Rejected (vInsertDeriv s k (.q a) o) := by
-  unfold vInsertDeriv; simp only [compatibleDeriv]
-  refine rej_bind (fun _ hx => ?_)
-  obtain ⟨_, _, hx⟩ := (bind_ok _ _ _).1 hx
-  obtain ⟨_, _, hx⟩ := (bind_ok _ _ _).1 hx
-  obtain ⟨_, h3, _⟩ := (bind_ok _ _ _).1 hx
-  have := (guard_ok _ _).1 h3
-  rw [h] at this; cases this
-theorem rej_numer_vInsertDeriv (s a : Obj) (k : String) (o : Bool) (h : (a.numer == s.numer) = false) :
-    Rejected (vInsertDeriv s k (.q a) o) := by
-  unfold vInsertDeriv; simp only [compatibleDeriv]
-  refine rej_bind (fun _ hx => ?_)
-  obtain ⟨_, _, hx⟩ := (bind_ok _ _ _).1 hx
-  obtain ⟨_, h2, _⟩ := (bind_ok _ _ _).1 hx
-  have := (guard_ok _ _).1 h2
-  rw [h] at this; cases this
-theorem rej_units_vSetUnits (s : Obj) (d : Nat) (o : Bool) (h : canMatch (some d) s.units = false) :
-    Rejected (vSetUnits s (.unit d) o) := by
-  unfold vSetUnits; rej_walk
-theorem rej_kind_vDiv (s : Obj) (a : Arg) (h : s.isFloat = false) : Rejected (vDiv s a) := by
-  unfold vDiv; rej_walk
-theorem rej_type_vAdd (s : Obj) : Rejected (vAdd s .bad) := by
-  unfold vAdd
-  refine rej_bind (fun _ _ => ?_)
-  refine rej_bind (fun _ _ => ?_)
-  simp only [fastPath, toQubeAdd, asThisType0]
-  exact rej_bind (fun _ h => by cases h)
-theorem rej_type_vMul (s : Obj) : Rejected (vMul s .bad) := by
-  unfold vMul
-  refine rej_bind (fun _ _ => ?_)
-  refine rej_bind (fun _ _ => ?_)
-  split
-  · exact rej_raise _
-  · simp only [toScalarArg, asScalar]
-    exact rej_bind (fun _ h => by cases h)
-theorem rej_type_vDiv (s : Obj) : Rejected (vDiv s .bad) := by
-  unfold vDiv
-  refine rej_bind (fun _ _ => ?_)
-  refine rej_bind (fun _ _ => ?_)
-  refine rej_bind (fun _ _ => ?_)
-  simp only [toScalarArg, asScalar]
-  exact rej_bind (fun _ h => by cases h)
-theorem rej_type_vFloorMod (fl : Bool) (s : Obj) : Rejected (vFloorMod fl s .bad) := by
-  unfold vFloorMod
-  refine rej_bind (fun _ _ => ?_)
-  refine rej_bind (fun _ _ => ?_)
-  refine rej_bind (fun _ _ => ?_)
-  simp only [toScalarArg, asScalar]
-  exact rej_bind (fun _ h => by cases h)
-theorem rej_type_vInsertDeriv (s : Obj) (k : String) (o : Bool) : Rejected (vInsertDeriv s k .bad o) := by
-  unfold vInsertDeriv; simp only [compatibleDeriv]
-  refine rej_bind (fun _ hx => ?_)
-  obtain ⟨_, _, hx⟩ := (bind_ok _ _ _).1 hx
-  cases hx
-theorem rej_type_vSetUnits (s : Obj) (o : Bool) : Rejected (vSetUnits s .bad o) := by
-  unfold vSetUnits
-  refine rej_bind (fun _ _ => ?_)
-  refine rej_bind (fun _ _ => ?_)
-  exact rej_raise _
-theorem rej_index_vSetItem (s : Obj) (e : Exc) (a : Arg) : Rejected (vSetItem s (.fails e) a) := by
-  unfold vSetItem
-  refine rej_bind (fun _ _ => ?_)
-  simp only [prepIndex, prepIndexWrapper]
-  exact rej_bind (fun _ h => by cases h)
 
 theorem ro_detected (s : Obj) (c : Call) (h : roFault s c) : Rejected (validate s c) := by
   unfold roFault at h
@@ -345,12 +196,17 @@ theorem ro_detected (s : Obj) (c : Call) (h : roFault s c) : Rejected (validate 
     | exact rej_ro_vAdd _ _ h | exact rej_ro_vMul _ _ h | exact rej_ro_vDiv _ _ h | exact rej_ro_vFloorMod _ _ _ h
     | exact rej_ro_vLogic _ _ h | exact rej_ro_vSetItem _ _ _ h | exact rej_ro_vDeleteDeriv _ _ h
     | exact rej_ro_vDeleteDerivs _ _ h | exact rej_ro_vSetUnits _ _ h
+    | exact rej_ro_vInsertDeriv _ _ _ h.1 h.2
+    | (obtain ⟨hro, p, hp, hk⟩ := h; exact rej_ro_vInsertDerivs _ _ hro p hp hk)
 theorem shape_detected (s : Obj) (c : Call) (h : shapeFault s c) : Rejected (validate s c) := by
   unfold shapeFault at h
   split at h <;> simp only [validate] <;> first
     | exact absurd h id
     | exact rejected_vAdd_q _ _ (rejected_vAddQ_of _ _ (Or.inr (Or.inr (Or.inr (Or.inl h)))))
     | exact rej_shape_vFloorMod _ _ _ h | exact rej_shape_vLogic _ _ h | exact rej_shape_vInsertDeriv _ _ _ _ h
+    | exact rej_shape_vMul _ _ h | exact rej_shape_vDiv _ _ h | exact rej_shape_vSetItem _ _ _ h
+    | (obtain ⟨p, hp, a, ha, hs⟩ := h
+       exact rej_vInsertDerivs_of _ _ _ p hp (by rw [ha]; exact compatibleDeriv_shape _ _ hs))
 theorem units_detected (s : Obj) (c : Call) (h : unitsFault s c) : Rejected (validate s c) := by
   unfold unitsFault at h
   split at h <;> simp only [validate] <;> first
@@ -362,29 +218,39 @@ theorem numer_detected (s : Obj) (c : Call) (h : numerFault s c) : Rejected (val
   split at h <;> simp only [validate] <;> first
     | exact absurd h id
     | exact rejected_vAdd_q _ _ (rejected_vAddQ_of _ _ (Or.inr (Or.inl h)))
-    | exact rej_numer_vInsertDeriv _ _ _ _ h
+    | exact rej_numer_vInsertDeriv _ _ _ _ h | exact rej_numer_vSetItem _ _ _ h
+    | (obtain ⟨p, hp, a, ha, hs⟩ := h
+       exact rej_vInsertDerivs_of _ _ _ p hp (by rw [ha]; exact compatibleDeriv_numer _ _ hs))
 theorem denom_detected (s : Obj) (c : Call) (h : denomFault s c) : Rejected (validate s c) := by
   unfold denomFault at h
   split at h <;> simp only [validate] <;> first
     | exact absurd h id
     | exact rejected_vAdd_q _ _ (rejected_vAddQ_of _ _ (Or.inr (Or.inr (Or.inl h))))
+    | exact rej_denom_vSetItem _ _ _ h
 theorem kind_detected (s : Obj) (c : Call) (h : kindFault s c) : Rejected (validate s c) := by
   unfold kindFault at h
   split at h <;> simp only [validate] <;> first
     | exact absurd h id
     | exact rejected_vAdd_q _ _ (rejected_vAddQ_of _ _ (Or.inr (Or.inr (Or.inr (Or.inr (Or.inl h))))))
-    | exact rej_kind_vDiv _ _ h
+    | exact rej_kind_vDiv _ _ h | exact rej_kind_vMul _ _ h.1 h.2.1 h.2.2
+    | exact rej_kindnum_vAdd _ _ h.1 h.2 | exact rej_kindnum_vMul _ _ h.1 h.2
+    | exact rej_kindnum_vFloorMod _ _ _ h.1 h.2
 theorem type_detected (s : Obj) (c : Call) (h : typeFault c) : Rejected (validate s c) := by
   unfold typeFault at h
   split at h <;> simp only [validate] <;> first
     | exact absurd h id
     | exact rej_type_vAdd _ | exact rej_type_vMul _ | exact rej_type_vDiv _ | exact rej_type_vFloorMod _ _
-    | exact rej_type_vInsertDeriv _ _ _ | exact rej_type_vSetUnits _ _
+    | exact rej_type_vInsertDeriv _ _ _ | exact rej_type_vSetUnits _ _ | exact rej_type_vSetItem _ _
+    | (obtain ⟨p, hp, hb⟩ := h
+       exact rej_vInsertDerivs_of _ _ _ p hp (by rw [hb]; exact compatibleDeriv_bad _))
 theorem deriv_detected (s : Obj) (c : Call) (h : derivFault s c) : Rejected (validate s c) := by
   unfold derivFault at h
   split at h <;> simp only [validate] <;> first
     | exact absurd h id
     | exact rejected_vAdd_q _ _ (rejected_vAddQ_of _ _ (Or.inr (Or.inr (Or.inr (Or.inr (Or.inr h))))))
+    | (obtain ⟨hr, e, he, hc⟩ := h; exact rej_deriv_vMul _ _ hr e he hc)
+    | (obtain ⟨hr, e, he, hc⟩ := h; exact rej_deriv_vDiv _ _ hr e he hc)
+    | (obtain ⟨hok, d, hd, hc⟩ := h; exact rej_deriv_vSetItem _ _ _ hok d hd hc)
 theorem index_detected (s : Obj) (c : Call) (h : indexFault c) : Rejected (validate s c) := by
   unfold indexFault at h
   split at h <;> simp only [validate] <;> first
@@ -445,6 +311,27 @@ theorem explicit_raises_allowed (name : String) (p : Prog) (t : List Ev) (st : B
     c = "TypeError" ∨ c = "ValueError" ∨ c = "IndexError" := by
   have := raisesIn_sound _ h (raises_allowed_table _ hm) c hc
   simpa using this
+
+/-- the polymath helpers that may be called after the first write of a mutator: cache bookkeeping
+    (`_new_values_`), mask / units algebra on validated operands (`or_`, `mul_units`, `div_units`, `copy`, `reshape`
+    of an index mask), dictionary iteration (`items`), construction of a zero derivative (`zeros`) and the commit
+    primitives whose preconditions the model carries (`insert_deriv`, `insert_derivs`, `delete_derivs`).
+    NumPy and builtin calls are not events (kernel contract). -/
+def commitHelpers : List String :=
+  ["_new_values_", "or_", "mul_units", "div_units", "copy", "reshape", "items", "zeros",
+   "insert_deriv", "insert_derivs", "delete_derivs"]
+
+open PMV.Events PMV.Gen.Events in
+theorem calls_after_write_table : ∀ e ∈ table, okP (Ev.callOutside commitHelpers) e.2 = true := by decide
+
+open PMV.Events PMV.Gen.Events in
+/-- **only commit helpers after a write**: on no execution path of any mutator is a polymath function outside
+    `commitHelpers` (a conversion, a validation, anything new that could raise) called after a write to self.  This is
+    what ties the regenerated code to the model's split into `validate` and write primitives: a check moved or added
+    after the first write breaks this theorem. -/
+theorem only_commit_helpers_after_write (name : String) (p : Prog) (t : List Ev) (st : Bool)
+    (hm : (name, p) ∈ table) (h : Trace p t st) : rawP (Ev.callOutside commitHelpers) t = false :=
+  okP_sound _ h (calls_after_write_table _ hm)
 
 open PMV.Events PMV.Gen.Events in
 /-- `_prep_index` raises nothing but IndexError explicitly, and its catch-all handler re-raises as IndexError -/
